@@ -104,7 +104,8 @@ def _minimise_case(mod, tier, prop, feed, kind, key):
 
 
 def work_chunk(args):
-    modname, prop, tier, seeds, want_sample = args
+    modname, prop, tier, seeds, want_sample = args[:5]
+    known_keys = set(args[5]) if len(args) > 5 else set()
     faulthandler.dump_traceback_later(RUN_WALL_LIMIT * 3 + 60, exit=True)
     mod = importlib.import_module(modname)
     out = {"n": 0, "stats": collections.Counter(), "faults": collections.Counter(),
@@ -142,9 +143,13 @@ def work_chunk(args):
             if cls in seen:
                 continue
             seen.add(cls)
-            if len(out["violations"]) >= 6:
+            if len([x for x in out["violations"] if x["violation"].get("key") not in known_keys]) >= 6:
                 break
             feed, mruns = list(tape.rec), 0
+            if v.key is not None and v.key in known_keys:
+                out["violations"].append({"seed": seed, "tape": feed, "orig_tape_len": len(feed), "minimise_runs": 0,
+                                          "violation": v.as_dict(), "case": None})
+                continue
             if os.environ.get("VERIF_NO_MINIMISE") != "1":
                 feed, mruns = _minimise_case(mod, tier, prop, list(tape.rec), v.kind, v.key)
             # re-run the minimised tape to get its decoded rendering
@@ -208,7 +213,8 @@ def main(prop, modname, tier, replay=None):
 
     agg = {"n": 0, "stats": collections.Counter(), "faults": collections.Counter(), "nontrivial": set(),
            "interleavings": set(), "shapes": set(), "samples": [], "violations": [], "errors": [],
-           "sim_seconds": 0.0, "digests": {}, "rejected": collections.Counter()}
+           "sim_seconds": 0.0, "digests": {}, "rejected": collections.Counter(),
+           "known_counts": collections.Counter()}
     next_idx = [0]
 
     def next_chunk():
@@ -218,7 +224,7 @@ def main(prop, modname, tier, replay=None):
         seeds = [run_seed(base_seed, next_idx[0] + i) for i in range(n)]
         want = next_idx[0] < chunk * 2
         next_idx[0] += n
-        return (modname, prop, tier, seeds, want)
+        return (modname, prop, tier, seeds, want, sorted(known_keys))
 
     def absorb(o):
         agg["n"] += o["n"]
@@ -231,7 +237,13 @@ def main(prop, modname, tier, replay=None):
         agg["sim_seconds"] += o["sim_seconds"]
         if len(agg["samples"]) < 3:
             agg["samples"].extend(o["samples"][: 3 - len(agg["samples"])])
-        agg["violations"].extend(o["violations"])
+        for v in o["violations"]:
+            k = v["violation"].get("key")
+            if k is not None and k in known_keys:
+                agg["known_counts"][k] += 1
+                if agg["known_counts"][k] > 1:
+                    continue
+            agg["violations"].append(v)
         agg["errors"].extend(o["errors"])
         for k, v in o["digests"].items():
             if len(agg["digests"]) < 64:
@@ -252,7 +264,8 @@ def main(prop, modname, tier, replay=None):
                 done, pending = cf.wait(pending, timeout=5, return_when=cf.FIRST_COMPLETED)
                 for fut in done:
                     absorb(fut.result())
-                if time.monotonic() - t0 > budget or len(agg["violations"]) >= 12 or len(agg["errors"]) >= 5:
+                nnew = len([x for x in agg["violations"] if x["violation"].get("key") not in known_keys])
+                if time.monotonic() - t0 > budget or nnew >= 12 or len(agg["errors"]) >= 5:
                     stop = True
                 if not stop:
                     for _ in range(len(done)):
@@ -343,7 +356,7 @@ def write_evidence(prop, mod, tier, seed, agg, wall, nviol, extra, known_hit, ha
         "distinct_interleavings": len(agg["interleavings"]),
         "distinct_history_shapes": len(agg["shapes"]),
         "components": cfg.get("components", {}),
-        "known_findings_hit": known_hit,
+        "known_findings_hit": {k: agg["known_counts"].get(k, 0) for k in known_hit},
         "exhaustive": False,
     }
     if extra:
